@@ -49,3 +49,57 @@ def run(ctx, fx, rule="R-SIGNED"):
                           "sides of 0x80 are ordered the wrong way round, unlike the scalar (u8) definition" % bad, fn.file, bad[1])
     ctx.instance(rule + ".kernels", n)
     return n
+
+
+IMPLICIT_LEN = re.compile(r"_mm_cmpistr[icmoasz]$")
+MASK64 = re.compile(r"_mm512_\w*(epi8|epu8)_mask$|_mm512_movepi8_mask$|_mm512_test\w*_epi8_mask$")
+
+
+def byte_kernels(ctx, fx, rule="R-LANES"):
+    """two more who-may-call / width rules over every function that calls x86 intrinsics:
+    (a) no implicit-length string instruction (PCMPISTR*: operands end at the first 0x00) - the inputs are
+        length-delimited byte slices that may contain NUL bytes;
+    (b) the 64-bit lane mask of an AVX-512 byte comparison is never narrowed by an integer cast (a `u64 as u32`
+        silently drops lanes 32..63)."""
+    from vlib.mir import op_place
+    n = 0
+    for fid in fx.fn_ids():
+        if "::tests::" in fid or "{closure" in fid:
+            continue
+        rec = fx.raw(fid)
+        if not rec["file"].startswith("src/"):
+            continue
+        fn = Fn(rec)
+        intr = [(b, c) for b, c in fn.calls() if "core::arch" in c["f"] or "std::arch" in c["f"] or "core_arch" in c["f"]]
+        if not intr:
+            continue
+        n += 1
+        ctx.analysed_fns.add(fid)
+        bad = None
+        for b, c in intr:
+            if IMPLICIT_LEN.search(c["f"]):
+                bad = ("implicit-length %s" % c["f"].rsplit("::", 1)[-1], c["ln"],
+                       "%s stops at the first zero byte of either operand; the kernel works on length-delimited byte slices, so "
+                       "a NUL inside the data or the needle hides everything behind it" % c["f"].rsplit("::", 1)[-1])
+            if MASK64.search(c["f"]) and fn.ty(c["d"][0]) in ("u64", "__mmask64"):
+                cls = {c["d"][0]}
+                changed = True
+                while changed:
+                    changed = False
+                    for loc, st in fn.iter_locs():
+                        if st[0] == "a" and len(st[1]) == 1 and st[2][0] == "use" and st[1][0] not in cls:
+                            p = op_place(st[2][1])
+                            if p and len(p) == 1 and p[0] in cls:
+                                cls.add(st[1][0])
+                                changed = True
+                for loc, st in fn.iter_locs():
+                    if st[0] == "a" and st[2][0] == "cast" and st[2][1] == "IntToInt" and op_local(st[2][2]) in cls \
+                            and st[2][3] in ("u32", "u16", "u8", "i32", "i16", "i8"):
+                        bad = ("64-lane mask narrowed to %s" % st[2][3], st[3],
+                               "the 64-bit lane mask of %s is cast to %s: matches in lanes beyond the narrow width are lost or "
+                               "misplaced" % (c["f"].rsplit("::", 1)[-1], st[2][3]))
+        ctx.obligation(rule, fid, "lane discipline", bad is None, sample={"fn": fid, "intrinsic_calls": len(intr)})
+        if bad:
+            ctx.violation(rule, fid, bad[0], bad[2], fn.file, bad[1])
+    ctx.instance(rule + ".functions", n)
+    return n
